@@ -20,7 +20,17 @@ fn validate_method(ctx: &Context, input: &DeriveInput) -> TokenStream {
     }
 
     let body = match &input.data {
-        Data::Struct(struct_data) => collect_fields(&struct_data.fields, quote! { __flatty_bytes }),
+        Data::Struct(struct_data) => {
+            let bytes = if ctx.info.sized {
+                quote! { __flatty_bytes }
+            } else {
+                // Validate exactly the bytes that the mapped reference covers (see `ptr_from_bytes`).
+                quote! {
+                    unsafe { __flatty_bytes.get_unchecked(..::flatty::utils::floor_mul(__flatty_bytes.len(), <Self as FlatBase>::ALIGN)) }
+                }
+            };
+            collect_fields(&struct_data.fields, bytes)
+        }
         Data::Enum(enum_data) => {
             if !ctx.c_like_enum.unwrap() {
                 let tag_type = ctx.idents.tag.as_ref().unwrap();
@@ -54,6 +64,8 @@ fn validate_method(ctx: &Context, input: &DeriveInput) -> TokenStream {
 
                     let tag = { #validate_tag };
                     let data = unsafe { __flatty_bytes.get_unchecked(Self::DATA_OFFSET..) };
+                    // Validate exactly the bytes that the mapped reference covers (see `ptr_from_bytes`).
+                    let data = unsafe { data.get_unchecked(..::flatty::utils::floor_mul(data.len(), <Self as FlatBase>::ALIGN)) };
 
                     #size_check
 
